@@ -30,6 +30,30 @@ from common import fstr, Fraction
 warnings.filterwarnings('ignore')
 
 
+class FloatResult(Exception):
+    """an Lcapy result that contains floating-point numbers (not compared)"""
+
+
+class LcTimeout(BaseException):
+    """a call into Lcapy/SymPy exceeded its time limit (counted, never a finding).  BaseException and a
+    repeating timer: Lcapy has `except Exception:` / bare `except:` blocks that would swallow a single alarm"""
+
+
+@contextlib.contextmanager
+def time_limit(seconds):
+    import signal
+
+    def _alarm(signum, frame):
+        raise LcTimeout()
+    old = signal.signal(signal.SIGALRM, _alarm)
+    signal.setitimer(signal.ITIMER_REAL, seconds, 0.5)
+    try:
+        yield
+    finally:
+        signal.setitimer(signal.ITIMER_REAL, 0)
+        signal.signal(signal.SIGALRM, old)
+
+
 # --------------------------------------------------------------------------- abstract trees
 
 class Leaf:
@@ -177,6 +201,10 @@ class Lc:
         if hasattr(e, 'laplace') and e.__class__.__name__.startswith('Superposition'):
             e = e.laplace()
         x = e.sympy if hasattr(e, 'sympy') else S.sympify(e)
+        if x.atoms(S.Float):
+            # e.g. thevenin()/norton() go through `.cpt()`, which may introduce floating-point values:
+            # floats are never compared
+            raise FloatResult(str(x)[:80])
         x = x.subs(self.ssym, S.Rational(s.numerator, s.denominator))
         if x.has(S.zoo) or x.has(S.nan) or x.has(S.oo):
             return None
@@ -333,8 +361,40 @@ def gen_pair(rng, op):
         z = rng.choice([Leaf('V', 'gen', Fraction(0)), Leaf('R', Fraction(0)), Leaf('Z', ('k', Fraction(0)))])
     else:
         z = rng.choice([Leaf('I', 'gen', Fraction(0)), Leaf('Y', ('k', Fraction(0))), Leaf('G', Fraction(0))])
-    other = gen_leaf(rng, 'transient', 'noI' if op == 'S' else 'noV')
+    fam = 'resistive' if z.kind in ('V', 'I') else 'transient'
+    other = gen_leaf(rng, fam, 'noI' if op == 'S' else 'noV')
     return [z, other] if rng.random() < 0.5 else [other, z]
+
+
+def fixed_combine_cases(rng):
+    """the complete table of `_combine` situations, generated on EVERY run whatever the seed (values are
+    random, shapes are not): each mergeable class x Ser/Par x initial conditions on none / first / second /
+    both-equal / both-different member, as a plain pair and (for the one-sided patterns) separated by another
+    argument, with the second member inside a nested network of the same class, below a node of the other class"""
+    out = []
+    for op in 'SP':
+        other = 'P' if op == 'S' else 'S'
+        role = 'noI' if op == 'S' else 'noV'
+        for k in 'CL':
+            a, b = rnd_any(rng), rnd_any(rng)
+            for pat, (i1, i2) in enumerate([(None, None), (a, None), (None, a), (a, a), (a, b), (Fraction(0), None)]):
+                x1, x2 = Leaf(k, rnd_pos(rng), i1), Leaf(k, rnd_pos(rng), i2)
+                out.append(Node(op, [x1, x2]))
+                if pat in (1, 2, 5):
+                    x1, x2 = Leaf(k, rnd_pos(rng), i1), Leaf(k, rnd_pos(rng), i2)
+                    inner = Node(op, [x1, Leaf('R', rnd_pos(rng)), Node(op, [x2, Leaf('R', rnd_pos(rng))])])
+                    out.append(Node(other, [inner, Leaf('R', rnd_pos(rng))]))
+        for k in 'RG':
+            out.append(Node(op, [Leaf(k, rnd_pos(rng)), Leaf('L', rnd_pos(rng), None), Leaf(k, rnd_pos(rng))]))
+        src = 'V' if op == 'S' else 'I'
+        for kind in ('dc', 'gen'):
+            out.append(Node(op, [Leaf(src, kind, rnd_any(rng)), Leaf('R', rnd_pos(rng)), Leaf(src, kind, rnd_any(rng))]))
+        zeros = ([Leaf('V', 'gen', Fraction(0)), Leaf('R', Fraction(0)), Leaf('Z', ('k', Fraction(0)))] if op == 'S' else
+                 [Leaf('I', 'gen', Fraction(0)), Leaf('Y', ('k', Fraction(0))), Leaf('G', Fraction(0))])
+        for z in zeros:
+            o = gen_leaf(rng, 'resistive', role)
+            out.append(Node(op, [z, o] if rng.random() < 0.5 else [o, z]))
+    return out
 
 
 def gen_combine_tree(rng, depth):
@@ -342,21 +402,24 @@ def gen_combine_tree(rng, depth):
     arguments, possibly inside a nested Ser/Par of the same or the other class), embedded at `depth`"""
     op = rng.choice('SP')
     pair = gen_pair(rng, op)
+    # constant-class sources (V, Vdc, I, Idc) are analysed by Lcapy as DC steady state, which is the
+    # Laplace-point relation only in a memoryless network: keep their company resistive
+    fam = 'resistive' if any(l.kind in ('V', 'I') and l.p[0] in ('gen', 'dc') for l in pair) else 'transient'
     role = 'noI' if op == 'S' else 'noV'
     args = [pair[0]]
     for _ in range(rng.randrange(3)):
-        args.append(gen_leaf(rng, 'transient', role))
+        args.append(gen_leaf(rng, fam, role))
     if rng.random() < 0.3:
         # the second member sits in a nested network of the same class (spliced by the flattening loop)
-        args.append(Node(op, [pair[1], gen_leaf(rng, 'transient', role)]))
+        args.append(Node(op, [pair[1], gen_leaf(rng, fam, role)]))
     else:
         args.append(pair[1])
     if rng.random() < 0.3:
-        args.append(gen_leaf(rng, 'transient', role))
+        args.append(gen_leaf(rng, fam, role))
     t = Node(op, args)
     for _ in range(depth):
         o2 = rng.choice('SP')
-        sib = gen_leaf(rng, 'transient', 'noI' if o2 == 'S' else 'noV')
+        sib = gen_leaf(rng, fam, 'noI' if o2 == 'S' else 'noV')
         t = Node(o2, [t, sib] if rng.random() < 0.5 else [sib, t])
     return t
 
@@ -377,7 +440,7 @@ QN = ['Z', 'Y', 'Voc', 'Isc']
 def run_oneport(chk, drv, L, state):
     rng = chk.rng
     quick = chk.tier == 'quick'
-    n_trees = 48 if quick else 240
+    n_trees = 40 if quick else 240
     max_depth = 4 if quick else 6
     max_leaves = 7 if quick else 12
     disagreements = state['disagreements']
@@ -385,14 +448,6 @@ def run_oneport(chk, drv, L, state):
     def finding(key, replay, what):
         state['counterexamples'] += 1
         chk.counterexample(key, replay, what)
-
-    import signal
-
-    class _Timeout(Exception):
-        pass
-
-    def _alarm(signum, frame):
-        raise _Timeout()
 
     limit = 20 if quick else 45
 
@@ -408,19 +463,14 @@ def run_oneport(chk, drv, L, state):
             if only_immittance and gi >= 2:
                 out.append('skipped')
                 continue
-            old = signal.signal(signal.SIGALRM, _alarm)
-            signal.setitimer(signal.ITIMER_REAL, limit)
             try:
-                with contextlib.redirect_stdout(io.StringIO()):
+                with time_limit(limit), contextlib.redirect_stdout(io.StringIO()):
                     out.append(L.at(g(), s))
-            except _Timeout:
+            except LcTimeout:
                 out.append('timeout')
                 chk.count('lcapy-timeout', route + '.' + QN[gi])
             except Exception as e:   # noqa
                 out.append('error:%s' % type(e).__name__)
-            finally:
-                signal.setitimer(signal.ITIMER_REAL, 0)
-                signal.signal(signal.SIGALRM, old)
         return out
 
     import time as _time
@@ -432,11 +482,17 @@ def run_oneport(chk, drv, L, state):
             sys.stderr.write('SLOW %.1fs %s\n' % (now - _t[0], label))
         _t[0] = now
 
-    for case in range(n_trees):
+    fixed = fixed_combine_cases(rng)
+    for case0 in range(len(fixed) + n_trees):
+        case = case0 - len(fixed)
+        light = case < 0
         family = 'transient' if case % 3 != 2 else 'resistive'
         illposed = (case % 10 == 9)
-        depth = 1 + case % max_depth
-        if case % 4 == 1:
+        depth = 1 + abs(case) % max_depth
+        if light:
+            family, illposed = 'combine-table', False
+            tree = fixed[case0]
+        elif case % 4 == 1:
             family, illposed = 'combine', False
             tree = gen_combine_tree(rng, case % 3)
         else:
@@ -477,9 +533,16 @@ def run_oneport(chk, drv, L, state):
         # outside the precondition (an ideal source shunted / in series) only Z and Y are looked at:
         # Voc / Isc go through nodal analysis of an ill-posed circuit, which SymPy may chew on for minutes
         outside = not (tOK or nOK)
-        alg = lc_quantities(net, s, 'algebra', only_immittance=outside)
+        # a zero-valued R / Z / G / Y is stamped as 1/0 by the netlist route (an Lcapy limitation of MNA, not
+        # of the algebra): such trees exercise the zero-element rules of simplify() and the spec line only
+        zero_elt = any((l.kind in ('R', 'G') and l.p[0] == 0) or (l.kind in ('Y', 'Z') and l.p[0][1] == 0)
+                       for l in tree.leaves())
+        if zero_elt:
+            chk.count('degenerate', 'zero-element:no-netlist-route')
+        alg = lc_quantities(net, s, 'algebra', only_immittance=outside or zero_elt or light)
         _tick('algebra ' + toks)
-        cct = ['skipped'] * 4 if outside else lc_quantities(net, s, 'cct')
+        # (the table cases are many and small: simplify(), the algebra route and the spec line only)
+        cct = ['skipped'] * 4 if (outside or zero_elt or light) else lc_quantities(net, s, 'cct')
         _tick('cct ' + toks)
         replay = {'input': {'tree': toks, 's': fstr(s), 'lcapy_expr': str(net)},
                   'lcapy': {'algebra': [_f(v) for v in alg], 'cct': [_f(v) for v in cct]},
@@ -513,7 +576,7 @@ def run_oneport(chk, drv, L, state):
             if isinstance(a, str) or isinstance(c, str) or a is None or c is None:
                 if isinstance(c, str) or c is None:
                     chk.count('lcapy-error', 'cct.%s:%s' % (q, c))
-                if c == 'timeout' or a == 'timeout':
+                if c in ('timeout', 'skipped') or a in ('timeout', 'skipped'):
                     continue
                 if (isinstance(c, str) or c is None) and not (isinstance(a, str) or a is None):
                     finding({'kind': 'oneport', 'cause': 'cct-route-fails', 'quantity': q, 'has_ic': has_ic},
@@ -559,32 +622,47 @@ def run_oneport(chk, drv, L, state):
                             '(Y, Isc) reported by the %s route is not the relation of the network' % route)
 
         # ---- thevenin() / norton(): the equivalent network must have the relation of the original
-        if family == 'combine':
+        transient_drive = (bool(kk & {'stepV', 'stepI', 'sV', 'sI'}) or has_ic) and not (kk & {'V', 'I', 'dcV', 'dcI'})
+        if family == 'combine' and transient_drive and not zero_elt:
+            # (without a transient drive thevenin()/norton() deliberately return the DC / AC equivalent)
             for meth, pre, req in (('thevenin', tOK, 'op.thev'), ('norton', nOK, 'op.nort')):
                 if not pre:
                     continue
                 try:
-                    with contextlib.redirect_stdout(io.StringIO()):
+                    with time_limit(min(limit, 12)), contextlib.redirect_stdout(io.StringIO()):
                         eq = getattr(net, meth)()
-                        pair = ([L.at(eq.Z, s), L.at(eq.Voc, s)] if meth == 'thevenin' else [L.at(eq.Y, s), L.at(eq.Isc, s)])
+                        # only the immittance of the equivalent is exact: its source is converted to a
+                        # time-domain component value through numerically rounded poles (`.cpt()`), so the
+                        # source term is taken from the (separately judged) algebra route
+                        pair = ([L.at(eq.Z, s), alg[2]] if meth == 'thevenin' else [L.at(eq.Y, s), alg[3]])
+                    _tick(meth + ' ' + toks)
+                except LcTimeout:
+                    chk.count('lcapy-timeout', meth + '()')
+                    continue
+                except FloatResult:
+                    chk.count('degenerate', meth + '()-returns-floats')
+                    continue
                 except Exception as e:   # noqa
                     chk.count('lcapy-error', '%s():%s' % (meth, type(e).__name__))
                     continue
-                if any(v is None for v in pair):
+                if any(not isinstance(v, Fraction) for v in pair):
                     chk.count('degenerate', meth + '-not-finite')
                     continue
                 chk.count('spec-judged', meth + '()')
                 if drv.ask1('%s %s %s %s %s' % (req, fstr(s), fstr(pair[0]), fstr(pair[1]), toks)) != 'true':
                     finding({'kind': 'simplify', 'cause': 'relation-changed', 'via': meth},
                             dict(replay, method=meth, reported=[fstr(v) for v in pair]),
-                            'net.%s() is not equivalent to the network' % meth)
+                            'the immittance of net.%s() is not that of the network' % meth)
 
         # ---- simplify: correspondence with the model, and oracle c (quantities unchanged)
         msimp = drv.ask1('op.simp %s %s' % (fstr(s), toks))
         try:
-            with contextlib.redirect_stdout(io.StringIO()):
+            with time_limit(limit), contextlib.redirect_stdout(io.StringIO()):
                 simp = net.simplify()
             simp_err = None
+        except LcTimeout:
+            chk.count('lcapy-timeout', 'simplify()')
+            continue
         except Exception as e:   # noqa
             simp, simp_err = None, type(e).__name__
         chk.count('simplify', 'error:' + simp_err if simp_err else ('changed' if str(simp) != str(net) else 'unchanged'))
@@ -618,11 +696,13 @@ def run_oneport(chk, drv, L, state):
                     dict(replay, simplified=stoks, line_after=sline), 'net.simplify() changes the port relation')
         else:
             salg = None
-            with contextlib.redirect_stdout(io.StringIO()):
-                try:
+            try:
+                with time_limit(limit), contextlib.redirect_stdout(io.StringIO()):
                     salg = [L.at(simp.Z, s), L.at(simp.Y, s)]
-                except Exception as e:   # noqa
-                    chk.count('lcapy-error', 'simplified.Z:%s' % type(e).__name__)
+            except LcTimeout:
+                chk.count('lcapy-timeout', 'simplified.Z')
+            except Exception as e:   # noqa
+                chk.count('lcapy-error', 'simplified.Z:%s' % type(e).__name__)
             if salg is not None and tOK and isinstance(alg[0], Fraction) and salg[0] is not None and salg[0] != alg[0]:
                 finding({'kind': 'simplify', 'cause': 'impedance-changed'}, dict(replay, simplified=stoks),
                         'net.simplify().Z differs from net.Z')
@@ -705,7 +785,8 @@ def gen_twoport(rng, case):
 def run_twoport(chk, drv, L, state):
     rng = chk.rng
     quick = chk.tier == 'quick'
-    n_cases = 40 if quick else 160
+    n_cases = 32 if quick else 160
+    tlimit = 20 if quick else 45
     disagreements = state['disagreements']
 
     def finding(key, replay, what):
@@ -772,8 +853,11 @@ def run_twoport(chk, drv, L, state):
         lc = {}
         for X in 'BAZYHG':
             try:
-                with contextlib.redirect_stdout(io.StringIO()):
+                with time_limit(tlimit), contextlib.redirect_stdout(io.StringIO()):
                     lc[X] = mat_at(getattr(tp, X + 'params'), s)
+            except LcTimeout:
+                lc[X] = 'timeout'
+                chk.count('lcapy-timeout', 'tp.%sparams' % X)
             except Exception as e:   # noqa
                 lc[X] = 'error:%s' % type(e).__name__
                 chk.count('lcapy-error', 'tp.%sparams:%s' % (X, type(e).__name__))
@@ -827,12 +911,17 @@ def run_twoport(chk, drv, L, state):
             except Exception as e:   # noqa
                 cct = None
                 chk.count('lcapy-error', 'netlist:%s' % type(e).__name__)
-            for X in ('BAZYHG' if cct is not None else ''):
+            # H and G need two more probe circuits each: extracted only for the classes whose native matrix is
+            # converted to them (Par2 / Ser2); the other classes are covered by B, A, Z, Y
+            for X in (('BAZYHG' if spec.kind in ('Par2', 'Ser2') else 'BAZY') if cct is not None else ''):
                 if isinstance(lc[X], str) or any(v is None for v in lc[X]):
                     continue
                 try:
-                    with contextlib.redirect_stdout(io.StringIO()):
+                    with time_limit(tlimit), contextlib.redirect_stdout(io.StringIO()):
                         got = mat_at(getattr(cct, X + 'params')(1, 0, 3, 2), s)
+                except LcTimeout:
+                    chk.count('lcapy-timeout', 'cct.%sparams' % X)
+                    continue
                 except Exception as e:   # noqa
                     chk.count('lcapy-error', 'cct.%sparams:%s' % (X, type(e).__name__))
                     continue
@@ -1071,8 +1160,13 @@ def run(chk, replay=None):
     state = {'disagreements': [], 'counterexamples': 0}
     chk.coverage['rule'] = ('one-port case = (random Ser/Par tree over R,G,L(i0),C(v0),Y,Z,CPE,Xtal,FerriteBead,V/Vdc/Vstep/sV,I/Idc/Istep/sI, '
                             'rational sample point s); non-trivial = depth >= 1 and the precondition tOK or nOK holds; distinct by (tree, s)')
+    import time as _time
+    t0 = _time.time()
     run_oneport(chk, drv, L, state)
+    t1 = _time.time()
     run_twoport(chk, drv, L, state)
+    chk.coverage['phase_seconds'] = {'lean+import': round(t0 - chk.t0, 1), 'oneport': round(t1 - t0, 1),
+                                     'twoport': round(_time.time() - t1, 1)}
     disagreements = state['disagreements']
     chk.coverage['correspondence']['samples_of_disagreement'] = disagreements[:5]
     # a broken obligation / correspondence is explained only by a fresh counterexample of this run
